@@ -134,7 +134,14 @@ func EvalSparse[E constraint.Element](cs SparseSys[E], w []*big.Int) (*SparseRes
 	res := &SparseResult{Gates: gates, DomainSize: n,
 		WantL: make([]*big.Int, n), WantR: make([]*big.Int, n), WantO: make([]*big.Int, n)}
 	if len(w) == 0 {
-		return nil, fmt.Errorf("empty wire vector")
+		if len(gates) > 0 || nbPub > 0 {
+			return nil, fmt.Errorf("empty wire vector")
+		}
+		zero := new(big.Int) // a system without wires: one all-zero row
+		for i := range res.WantL {
+			res.WantL[i], res.WantR[i], res.WantO[i] = zero, zero, zero
+		}
+		return res, nil
 	}
 	for i := 0; i < nbPub; i++ {
 		res.WantL[i], res.WantR[i], res.WantO[i] = w[i], w[0], w[0]
